@@ -40,6 +40,62 @@ fn jv(v: &Value) -> serde_json::Value {
         _ => json_value(v),
     }
 }
+
+/// Rebuilds a value from the JSON written by `jv` (maps and undefined included).
+fn vj(j: &serde_json::Value) -> Value {
+    if let Some(o) = j.as_object() {
+        if let Some(a) = o.get("arr") {
+            return Value::from(a.as_array().unwrap().iter().map(vj).collect::<Vec<_>>());
+        }
+        if let Some(m) = o.get("map") {
+            let mut out = Map::new();
+            for e in m.as_array().unwrap() {
+                let k = e[0].as_str().unwrap();
+                let (kind, rest) = k.split_once('(').unwrap();
+                let inner = &rest[..rest.len() - 1];
+                let key: Key<'static> = match kind {
+                    "Bool" => Key::Bool(inner == "true"),
+                    "U64" => Key::U64(inner.parse().unwrap()),
+                    "I64" => Key::I64(inner.parse().unwrap()),
+                    "U128" => Key::U128(inner.parse().unwrap()),
+                    "I128" => Key::I128(inner.parse().unwrap()),
+                    "String" => Key::String(std::sync::Arc::from(serde_json::from_str::<String>(inner).unwrap_or(inner.trim_matches('"').to_string()))),
+                    _ => Key::Str(leak(&serde_json::from_str::<String>(inner).unwrap_or(inner.trim_matches('"').to_string()))),
+                };
+                out.insert(key, vj(&e[1]));
+            }
+            return Value::from(out);
+        }
+    }
+    value_from_json(j)
+}
+
+/// `--replay file`: re-run sort / unique on the recorded array with the current implementation.
+fn replay(path: &std::path::Path, tera: &Tera) {
+    let r: serde_json::Value = serde_json::from_str(&std::fs::read_to_string(path).expect("replay file")).expect("json");
+    let mut cur = &r;
+    for k in ["case", "input", "input"] {
+        if cur.get("xs").is_none() {
+            if let Some(n) = cur.get(k) { cur = n; }
+        }
+    }
+    let xs = match cur.get("xs") {
+        Some(x) if x.is_array() => x.as_array().unwrap().iter().map(vj).collect::<Vec<_>>(),
+        Some(x) if x.get("all").is_some() => x["all"].as_array().unwrap().iter().map(vj).collect::<Vec<_>>(),
+        _ => { println!("nothing to replay in this record"); return; }
+    };
+    let attr = cur.get("attribute").and_then(|a| a.as_str());
+    let show = |o: Outcome<Value>| match o { Outcome::Ok(v) => format!("ok, {} elements: {}", v.len().unwrap_or(0), { let s = jv(&v).to_string(); s.chars().take(600).collect::<String>() }), o => o.json(jv).to_string() };
+    match attr {
+        Some(a) => {
+            println!("sort(attribute={a}) => {}", show(run(tera, &format!("xs | sort(attribute=\"{a}\")"), &xs)));
+            println!("group_by(attribute={a}) => {}", show(run(tera, &format!("xs | group_by(attribute=\"{a}\")"), &xs)));
+        }
+        None => println!("sort => {}", show(run(tera, "xs | sort", &xs))),
+    }
+    println!("unique => {}", show(run(tera, "xs | unique", &xs)));
+}
+
 /// short description of a long array for evidence / replays
 fn jarr(xs: &[Value]) -> serde_json::Value {
     if xs.len() <= 40 {
@@ -250,6 +306,10 @@ fn main() {
     silence_panics();
     let mut tera = Tera::default();
     register_probe(&mut tera);
+    if let Some(p) = &args.replay {
+        replay(p, &tera);
+        return;
+    }
     let mut rng = Rng::new(args.seed);
     let thorough = args.tier == "thorough";
     let mut meta = Meta::default();
